@@ -138,7 +138,6 @@ fn check_next_perm(data: &[u8]) -> CaseResult {
 
 fn check_iter_perm(data: &[u8]) -> CaseResult {
     let mut st = CaseStats::default();
-    let got: Vec<Vec<u8>> = iter_permutations(data.to_vec()).collect();
     // expected: distinct arrangements in lexicographic order, generated by definition (recursive choice)
     fn rec(rem: &mut Vec<u8>, cur: &mut Vec<u8>, out: &mut Vec<Vec<u8>>) {
         if rem.is_empty() {
@@ -162,6 +161,8 @@ fn check_iter_perm(data: &[u8]) -> CaseResult {
     rem.sort();
     let mut want = Vec::new();
     rec(&mut rem, &mut Vec::new(), &mut want);
+    // bounded: a broken successor function must be reported, not exhaust memory
+    let got: Vec<Vec<u8>> = iter_permutations(data.to_vec()).take(want.len() + 1).collect();
     if got != want {
         let k = got.iter().zip(want.iter()).position(|(a, b)| a != b).unwrap_or(got.len().min(want.len()));
         return Err(Violation::new(
